@@ -380,6 +380,9 @@ func arith(r *engine.Run) {
 					if ok {
 						good, why = finiteFloat(f, x, facts, x.Call.Args[0])
 					}
+					if cv := constVal(x.Call.Args[0]); cv != nil && (cv.Kind() == constant.Float || cv.Kind() == constant.Int) {
+						good, why = true, "constant argument "+cv.String()+" (a finite number)"
+					}
 					r.CallSites++
 					r.Check(good, rule, c, r.P.Pos(x.Pos()), why, "decimal.NewFromFloat panics on NaN and ±Inf and the call is not dominated by their rejection: "+why)
 				}
